@@ -315,11 +315,12 @@ func c06run(r *ev.Run) {
 	for rr := rune(1); rr < 0x180; rr++ {
 		runes = append(runes, rr)
 	}
-	runes = append(runes, 0x2028, 0x3000, 0xFEFF, 0xFFFD, 0x1F44D, 0x10FFFF, 0xB5, 0x3BC)
+	// both sides of every UTF-8 length boundary, and a few classes the lexer could confuse
+	runes = append(runes, 0x7FF, 0x800, 0xD7FF, 0xE000, 0xFFFF, 0x10000, 0x2028, 0x3000, 0xFEFF, 0xFFFD, 0x1F44D, 0x10FFFF, 0x3BC)
 	if !th {
 		var sub []rune
 		for i, rr := range runes {
-			if rr < 0x80 || i%8 == 0 {
+			if rr <= 0x90 || rr >= 0xFF || i%8 == 0 {
 				sub = append(sub, rr)
 			}
 		}
